@@ -13,6 +13,23 @@ E2 = "explicit-state search over operation histories of the real objects against
 E3 = "bounded-exhaustive input/configuration enumeration against a reference model (depth-1 model checking)"
 
 CHECKS = {
+    "C18": dict(
+        engine="E1-sched",
+        category="model_checking",
+        technique=E1 + "; scripted controller (per-zone schedule version history + change counter) as reference model",
+        text="Every schedule with <= D deviations (D=2 for one transfer, D=1 for 2-3 concurrent transfers and the time-out sweep; thorough D=3/2) of the real "
+        "Gateway + Schedule/ScheduleSync + QoS FSM on the virtual loop against a scripted controller. Choice points: the fate of every transmission (ok / "
+        "reply lost / transmission lost / reply twice / reply after the retransmission timer) and, between any two exchanges, an environment event (the "
+        "schedule of this or another zone changes at the controller with the same or another fragment count / any fragment of any zone is overheard / the "
+        "caller abandons). Scenario product: get and set x zones 01, 02, DHW x fragment counts 1-3 x force_io x cold / cached / cached-then-changed / "
+        "counter cache aged out x caller time-out just before and after every exchange boundary x a second and third transfer started at each exchange. "
+        "Oracle: each call ends; a returned schedule is exactly one version the controller held for that zone, current at some instant of the transfer "
+        "(not older than the last counter read); errors are TimeoutError or library errors; 5 s later the lock is free; a fault-free forced fetch of "
+        "every zone then returns the controller's current schedule; nothing reaches the loop exception handler.",
+        design_ref="4/C18",
+        note="The scripted controller uses the library's own fragment codec (C17's subject), commits a write when the last fragment arrives with all others present, and stays silent for a "
+        "fragment number beyond the current total. One protocol-level race (a change at the controller between set_schedule's last ack and its closing counter read) is a recorded finding.",
+    ),
     "C14": dict(
         engine="E2-hist",
         category="model_checking",
